@@ -36,7 +36,7 @@ func main() {
 			"distinct = hash of (idle mode, level, outcome sequence, end action, segmentation policy); non-trivial = at least 2 requests or a non-ok outcome",
 		Assumptions: []string{
 			"loopback family: real servers on the standard and netpoll transports, the client closes the connection after the responses; the tracer log is read once it has been stable for 30 ms",
-			"one request-less (Start, Finish) pair is tolerated only on a connection that sent nothing",
+			"a connection that sent nothing before it ended produces no tracer call (no request-less pair is tolerated)",
 			"with IdleTimeout == 0 Serve returns after each request; the rig plays the poller and calls Serve again while buffered or undelivered input remains",
 			"a rejected request (malformed, too large, truncated) is still bracketed by one pair; its Finish need not carry a request path",
 		},
@@ -585,10 +585,16 @@ func oneConn(w *mon.W, c *mon.Case, get func(ecfg) *engine, loopback bool) {
 			}
 		}
 	}
-	// pairs without a request: only the first event pair of a connection that sent nothing
+	// pairs without a request: none — not for the end of a keep-alive connection, and not
+	// for a connection that is closed before it carried a byte (a TCP health probe): a Finish
+	// carries the data of a request, and there is none
 	extra := len(fins) - len(handled)
-	if extra > 0 && !(len(handled) == 0 && extra == 1) {
-		c.Violate("extra-pair", "%d Start/Finish pairs for %d requests (outcomes %v, end %s); trace: %s", len(fins), len(handled), outcomes, endName, render())
+	if extra > 0 {
+		key := "extra-pair"
+		if len(handled) == 0 && wbuf.Len() == 0 {
+			key = "pair-without-request"
+		}
+		c.Violate(key, "%d Start/Finish pairs for %d requests (%d bytes sent; outcomes %v, end %s); trace: %s", len(fins), len(handled), wbuf.Len(), outcomes, endName, render())
 		return
 	}
 	if len(handled) >= 1 && !stop && !closedByRequest {
